@@ -198,6 +198,14 @@ var malformedDocs = []malformedDoc{
 	{"propfind-unparseable", "principal", "PROPFIND", "principal", `<D:propfind`, "application/xml"},
 }
 
+// unsupportedDepth: values that are well-formed but that the RFC does not allow
+// for the method (MOVE on a collection: infinity only; COPY: 0 or infinity).
+var unsupportedDepth = map[string][]string{"MOVE": {"0", "1"}, "COPY": {"1"}}
+
+// junkConditionals are If-Match / If-None-Match values from the edge of the
+// grammar; a handler may refuse them (4xx) or ignore them, never panic.
+var junkConditionals = []string{`"`, `W/"`, `W/`, `""`, `"\`, `\"`, `"a`, `a"`, `'`, `W/""`, `"\""`, "\"\x00\"", `"` + "\t" + `"`, `*, "a"`, `"a" , "b"`, `W/*`, `"\u`, `"\x4`, "\"\xff\""}
+
 var invalidHeaders = [][2]string{
 	{"Depth", "2"}, {"Depth", "-1"}, {"Depth", "infinite"}, {"Depth", "0, 1"}, {"Depth", "1.0"},
 	{"Overwrite", "X"}, {"Overwrite", "true"}, {"Overwrite", "TF"},
@@ -408,6 +416,21 @@ func GenC13(seed uint64, tier string) *Plan {
 			} else {
 				st.Faults = []Fault{{Seam: "backend", At: r.Intn(6), Kind: rt.Pick(r, backendFaultKinds)}}
 			}
+		case f == 3 && r.Chance(0.3) && (st.Method == "PUT" || st.Method == "DELETE"): // junk conditional header
+			st.set(rt.Pick(r, []string{"If-Match", "If-None-Match"}), rt.Pick(r, junkConditionals))
+			if r.Chance(0.3) {
+				st.set(rt.Pick(r, []string{"If-Match", "If-None-Match"}), rt.Pick(r, junkConditionals))
+			}
+		case f == 3 && r.Chance(0.25) && unsupportedDepth[st.Method] != nil && strings.HasPrefix(cfg.Server, "webdav"):
+			v := rt.Pick(r, unsupportedDepth[st.Method])
+			var hs [][2]string
+			for _, x := range st.Headers {
+				if x[0] != "Depth" {
+					hs = append(hs, x)
+				}
+			}
+			st.Headers = append(hs, [2]string{"Depth", v})
+			st.Malformed = "header:Depth=" + v + " (unsupported for " + st.Method + ")"
 		case f == 3: // invalid header value
 			h := rt.Pick(r, invalidHeaders)
 			applies := (h[0] == "Depth" && (st.Method == "PROPFIND" || st.Method == "COPY" || st.Method == "MOVE")) || (h[0] != "Depth" && (st.Method == "COPY" || st.Method == "MOVE"))
